@@ -16,7 +16,11 @@ func (st *programState) evaluateExpr(expr parser.ValueExpr) (Value, InterpreterE
 	case *parser.StringLiteral:
 		return String(expr.String), nil
 	case *parser.RatioLiteral:
-		return Portion(*expr.ToRatio()), nil
+		rat, err := ratioLiteralToRat(expr)
+		if err != nil {
+			return nil, err
+		}
+		return Portion(*rat), nil
 	case *parser.NumberLiteral:
 		return MonetaryInt(*big.NewInt(int64(expr.Number))), nil
 	case *parser.MonetaryLiteral:
@@ -61,6 +65,18 @@ func (st *programState) evaluateExpr(expr parser.ValueExpr) (Value, InterpreterE
 		utils.NonExhaustiveMatchPanic[any](expr)
 		return nil, nil
 	}
+}
+
+// A ratio literal can be written with a zero denominator (e.g. "1/0")
+func ratioLiteralToRat(lit *parser.RatioLiteral) (*big.Rat, InterpreterError) {
+	if lit.Denominator.Sign() == 0 {
+		return nil, BadPortionParsingErr{
+			Range:  lit.Range,
+			Source: lit.Numerator.String() + "/" + lit.Denominator.String(),
+			Reason: "invalid fractional format",
+		}
+	}
+	return lit.ToRatio(), nil
 }
 
 func evaluateExprAs[T any](st *programState, expr parser.ValueExpr, expect func(Value, parser.Range) (*T, InterpreterError)) (*T, InterpreterError) {
